@@ -20,7 +20,7 @@ REQUIRED = [
 RULE = (
     "entry sequences with multiplicities 1-5 of equal names, equal (name,type,target) triples, all three types mixed, "
     "names equal to another entry's would-be replacement name (and its '_1' successor), targets sharing their first "
-    "five bytes; non-trivial = at least one repeated name; distinct by canonical JSON"
+    "five bytes, names sorting between a repeated name and its directory form; non-trivial = at least one repeated name; distinct by canonical JSON"
 )
 ASSUMPTIONS = [
     "SHA-1 uninterpreted in theorems; 'check passes' is proved from 'the repaired manifest differs from the original' "
@@ -42,6 +42,11 @@ def gen_case(rng):
             names.append(b + b"_" + t.hex().encode()[:10] + b"_1")
     n = rng.choice([1, 2, 3, 3, 4, 5, 6, 8, 12])
     pool = rng.sample(names, rng.randrange(1, 5))
+    if rng.random() < 0.35:
+        # a name together with names that sort between it and its directory form "name/"
+        # (next byte below 0x2f), so that equal names are not neighbours in git tree order
+        stem = rng.choice([b"a", b"lib", b"\xff"])
+        pool = [stem, stem] + rng.sample([stem + b".", stem + b"-x", stem + b" ", stem + b"+", stem + b".txt", stem + b"0", stem + b"/"[:0] + b"_"], rng.randrange(1, 4))
     es = []
     for _ in range(n):
         ty = rng.choice(["file", "file", "dir", "rev"])
